@@ -20,6 +20,7 @@ def backend_facts() -> Dict[str, Any]:
     _STATE["classes"] = {wiregen.qual(c): c for c in classes}
     return {
         "PYDANTIC_AVAILABLE": bool(b.PYDANTIC_AVAILABLE),
+        "HAS_ORJSON": bool(__import__("chuk_mcp.protocol.fast_json", fromlist=["HAS_ORJSON"]).HAS_ORJSON),
         "MCP_FORCE_FALLBACK": os.environ.get("MCP_FORCE_FALLBACK"),
         "base_module_of_models": b.McpPydanticBase.__mro__[1].__module__,
         "classes": sorted(_STATE["classes"]),
@@ -142,6 +143,15 @@ def member_kind(cls: Optional[type], k: str) -> str:
                 return f"declared:{k}"
             if f.name == k:
                 return f"attribute-name:{k}"
+    if cls is None:
+        # a key inside a free-form value: say so, and whether it is spelled like an aliased member somewhere
+        for c in _STATE.get("classes", {}).values():
+            for f in wiregen.fields(c):
+                if f.wire != f.name and k == f.name:
+                    return f"free-form-key:spelled-like-attribute:{k}"
+                if f.wire != f.name and k == f.wire:
+                    return f"free-form-key:spelled-like-wire-name:{k}"
+        return "free-form-key:" + wiregen.name_kind(k)
     return "unknown:" + wiregen.name_kind(k)
 
 
